@@ -1,5 +1,354 @@
-use crate::common::Ctx;
-pub fn run(_ctx: &Ctx, _replay: Option<&serde_json::Value>) -> i32 {
-    eprintln!("not implemented");
-    2
+//! C11 — scalar operator semantics and the broadcasting law.
+
+use crate::alpha::*;
+use crate::common::*;
+use blots_core::ast::BinaryOp;
+use serde_json::{Value as J, json};
+use std::cmp::Ordering;
+
+const OPS: [(&str, BinaryOp); 17] = [
+    ("+", BinaryOp::Add),
+    ("-", BinaryOp::Subtract),
+    ("*", BinaryOp::Multiply),
+    ("/", BinaryOp::Divide),
+    ("%", BinaryOp::Modulo),
+    ("^", BinaryOp::Power),
+    ("==", BinaryOp::Equal),
+    ("!=", BinaryOp::NotEqual),
+    ("<", BinaryOp::Less),
+    ("<=", BinaryOp::LessEq),
+    (">", BinaryOp::Greater),
+    (">=", BinaryOp::GreaterEq),
+    ("&&", BinaryOp::And),
+    ("and", BinaryOp::NaturalAnd),
+    ("||", BinaryOp::Or),
+    ("or", BinaryOp::NaturalOr),
+    ("??", BinaryOp::Coalesce),
+];
+
+const DOT_OPS: [&str; 6] = [".==", ".!=", ".<", ".<=", ".>", ".>="];
+
+/// What the statement fixes for one scalar operation.
+#[derive(Debug, Clone, PartialEq)]
+enum M {
+    Val(RV),
+    Fail,
+    /// not fixed by the statement (and/or with a boolean left and non-boolean right operand)
+    Unspecified,
+}
+
+/// Independent model of the scalar operators (an operand that is itself a list is simply a
+/// non-number / non-boolean value here: broadcasting is one level deep).
+fn scalar_model(op: BinaryOp, a: &RV, b: &RV) -> M {
+    use BinaryOp::*;
+    match op {
+        Add => match (a, b) {
+            (RV::Num(x), RV::Num(y)) => M::Val(RV::Num(x + y)),
+            (RV::Str(x), RV::Str(y)) => M::Val(RV::Str(format!("{}{}", x, y))),
+            _ => M::Fail,
+        },
+        Subtract | Multiply | Divide | Modulo | Power => match (a, b) {
+            (RV::Num(x), RV::Num(y)) => M::Val(RV::Num(match op {
+                Subtract => x - y,
+                Multiply => x * y,
+                Divide => x / y,
+                Modulo => x % y,
+                Power => x.powf(*y),
+                _ => unreachable!(),
+            })),
+            _ => M::Fail,
+        },
+        Equal => M::Val(RV::Bool(a.equals(b))),
+        NotEqual => M::Val(RV::Bool(!a.equals(b))),
+        Less | LessEq | Greater | GreaterEq => match a.compare(b) {
+            None => M::Fail,
+            Some(o) => M::Val(RV::Bool(match op {
+                Less => o == Ordering::Less,
+                LessEq => o != Ordering::Greater,
+                Greater => o == Ordering::Greater,
+                GreaterEq => o != Ordering::Less,
+                _ => unreachable!(),
+            })),
+        },
+        And | NaturalAnd | Or | NaturalOr => match (a, b) {
+            (RV::Bool(x), RV::Bool(y)) => M::Val(RV::Bool(if matches!(op, And | NaturalAnd) { *x && *y } else { *x || *y })),
+            (RV::Bool(_), _) => M::Unspecified,
+            _ => M::Fail,
+        },
+        Coalesce => M::Val(if *a == RV::Null { b.clone() } else { a.clone() }),
+        _ => unreachable!(),
+    }
+}
+
+fn element_pool(thorough: bool) -> Vec<RV> {
+    let mut v: Vec<RV> = number_pool(thorough).into_iter().map(RV::Num).collect();
+    v.extend([RV::s(""), RV::s("a"), RV::s("b"), RV::Bool(true), RV::Bool(false), RV::Null]);
+    v.push(RV::List(vec![RV::Num(1.0)]));
+    if thorough {
+        v.push(RV::List(vec![]));
+        v.push(RV::s("\u{e9}"));
+        v.push(RV::Rec(vec![("a".into(), RV::Num(1.0))]));
+    }
+    v
+}
+
+struct Case {
+    src: String,
+    kind: &'static str,
+    expected: Exp,
+}
+
+enum Exp {
+    /// exact canonical value
+    Val(String),
+    Fail,
+    /// element-wise: each entry Some(canon) / None = must fail; with `unspec` entries taken from
+    /// the real scalar evaluation
+    Any,
+    Bool,
+}
+
+fn eval_src(src: &str) -> Outcome {
+    eval_fresh(src)
+}
+
+pub fn run(ctx: &Ctx, replay: Option<&J>) -> i32 {
+    if let Some(r) = replay {
+        let src = r["input"].as_str().unwrap_or("");
+        let o1 = eval_src(src);
+        let o2 = eval_src(src);
+        if o1 != o2 {
+            eprintln!("replay diverged");
+            return 2;
+        }
+        println!("input: {}\nobserved: {:?}\nexpected: {}", src, o1, r["expected"]);
+        let bad = format!("{:?}", o1.cmp_key()) != format!("{:?}", r["expected"].as_str().unwrap_or(""));
+        if bad {
+            println!("VIOLATION property=C11 replay=<replayed>");
+            return 1;
+        }
+        return 0;
+    }
+    let thorough = !ctx.quick();
+    let pool = element_pool(thorough);
+    let scal_pool: Vec<RV> = pool.iter().filter(|v| !v.is_list()).cloned().collect();
+
+    // ---- (i) scalar o scalar against the model, and collect the real scalar outcome table
+    let mut cases: Vec<Case> = vec![];
+    // real scalar outcomes for (op, a, b) over non-list operands: key -> outcome
+    let mut scalar_jobs: Vec<(usize, usize, usize)> = vec![];
+    for (oi, _) in OPS.iter().enumerate() {
+        for ai in 0..scal_pool.len() {
+            for bi in 0..scal_pool.len() {
+                scalar_jobs.push((oi, ai, bi));
+            }
+        }
+    }
+    let scalar_out: Vec<Outcome> = par_map(&scalar_jobs, |(oi, ai, bi)| {
+        eval_src(&format!("{} {} {}", scal_pool[*ai].src(), OPS[*oi].0, scal_pool[*bi].src()))
+    });
+    let mut scalar_table = std::collections::HashMap::new();
+    for ((oi, ai, bi), out) in scalar_jobs.iter().zip(scalar_out.iter()) {
+        ctx.count(1);
+        let (a, b) = (&scal_pool[*ai], &scal_pool[*bi]);
+        let m = scalar_model(OPS[*oi].1, a, b);
+        let src = format!("{} {} {}", a.src(), OPS[*oi].0, b.src());
+        ctx.nontrivial(&src);
+        let ok = match (&m, out) {
+            (M::Val(v), Outcome::Ok(g)) => &v.canon() == g,
+            (M::Fail, Outcome::EvalError(_)) => true,
+            (M::Unspecified, Outcome::Ok(_) | Outcome::EvalError(_)) => true,
+            _ => false,
+        };
+        ctx.outcome(&format!("scalar-{}-{}", OPS[*oi].0, if out.is_ok() { "ok" } else { "fail" }));
+        if !ok {
+            ctx.violation(Violation {
+                kind: "scalar-semantics".into(),
+                class: format!("op {}", OPS[*oi].0),
+                input: src.clone(),
+                expected: format!("{:?}", m),
+                observed: format!("{:?}", out),
+                case: json!({"src": src}),
+            });
+        }
+        scalar_table.insert((*oi, a.canon(), b.canon()), out.clone());
+    }
+
+    // element function used by the broadcasting law
+    // Some(Some(v)) = value, Some(None) = must fail, None = not fixed by the statement
+    let elem = |oi: usize, a: &RV, b: &RV| -> Option<Option<String>> {
+        match scalar_model(OPS[oi].1, a, b) {
+            M::Val(v) => Some(Some(v.canon())),
+            M::Fail => Some(None),
+            M::Unspecified => match scalar_table.get(&(oi, a.canon(), b.canon())) {
+                Some(Outcome::Ok(g)) => Some(Some(g.clone())),
+                Some(_) => Some(None),
+                None => None,
+            },
+        }
+    };
+
+    // ---- list families
+    let max_full = 2usize;
+    let short_lists: Vec<Vec<RV>> = words(&pool, max_full);
+    // periodic extensions to lengths 3..8 of every word of length 1..2 over a reduced alphabet
+    let reduced: Vec<RV> = if thorough {
+        pool.clone()
+    } else {
+        vec![RV::Num(1.0), RV::Num(f64::NAN), RV::Num(-2.5), RV::s("a"), RV::Bool(true), RV::Null, RV::List(vec![RV::Num(1.0)])]
+    };
+    let mut long_lists: Vec<Vec<RV>> = vec![];
+    for w in words(&reduced, 2).into_iter().filter(|w| !w.is_empty()) {
+        for n in 3..=8 {
+            long_lists.push(extend_periodic(&w, n));
+        }
+    }
+
+    let mk_expected = |oi: usize, xs: &[RV], ys: &[RV]| -> Exp {
+        let mut out = vec![];
+        for (x, y) in xs.iter().zip(ys.iter()) {
+            match elem(oi, x, y) {
+                Some(Some(c)) => out.push(c),
+                Some(None) => return Exp::Fail,
+                None => return Exp::Any,
+            }
+        }
+        Exp::Val(format!("[{}]", out.join(", ")))
+    };
+
+    // list o scalar, scalar o list
+    for (oi, (op, _)) in OPS.iter().enumerate() {
+        for l in short_lists.iter().chain(long_lists.iter()) {
+            for s in &scal_pool {
+                let ls = RV::List(l.clone()).src();
+                let ss: Vec<RV> = l.iter().map(|_| s.clone()).collect();
+                cases.push(Case { src: format!("{} {} {}", ls, op, s.src()), kind: "list-scalar", expected: mk_expected(oi, l, &ss) });
+                cases.push(Case { src: format!("{} {} {}", s.src(), op, ls), kind: "scalar-list", expected: mk_expected(oi, &ss, l) });
+            }
+        }
+    }
+    // quick: length-2 list pairs over the reduced alphabet, length-1 pairs over the whole pool
+    let ll_lists: Vec<Vec<RV>> = if thorough {
+        short_lists.clone()
+    } else {
+        let mut v = words(&pool, 1);
+        v.extend(words(&reduced, 2).into_iter().filter(|w| w.len() == 2));
+        v
+    };
+    // list o list, equal lengths: all pairs of short lists of equal length; long lists paired by
+    // word pairs at each length
+    for (oi, (op, _)) in OPS.iter().enumerate() {
+        for a in &ll_lists {
+            for b in ll_lists.iter().filter(|b| b.len() == a.len()) {
+                cases.push(Case {
+                    src: format!("{} {} {}", RV::List(a.clone()).src(), op, RV::List(b.clone()).src()),
+                    kind: "list-list",
+                    expected: mk_expected(oi, a, b),
+                });
+            }
+        }
+        let step = if thorough { 1 } else { 7 };
+        for (i, a) in long_lists.iter().enumerate() {
+            for b in long_lists.iter().filter(|b| b.len() == a.len()).skip(i % step).step_by(step) {
+                cases.push(Case {
+                    src: format!("{} {} {}", RV::List(a.clone()).src(), op, RV::List(b.clone()).src()),
+                    kind: "list-list",
+                    expected: mk_expected(oi, a, b),
+                });
+            }
+        }
+        // every mismatched length pair 0..=5 (and 8 vs 7), for two element choices
+        for m in 0..=8usize {
+            for n in 0..=8usize {
+                if m == n {
+                    continue;
+                }
+                for e in [RV::Num(1.0), RV::Null, RV::Bool(true), RV::s("a")] {
+                    let a = RV::List(vec![e.clone(); m]);
+                    let b = RV::List(vec![e.clone(); n]);
+                    cases.push(Case { src: format!("{} {} {}", a.src(), op, b.src()), kind: "length-mismatch", expected: Exp::Fail });
+                }
+            }
+        }
+    }
+    // ---- (iii) dot operators never broadcast
+    for op in DOT_OPS {
+        for a in short_lists.iter().filter(|l| l.len() <= 2) {
+            let step = if thorough { 1 } else { 5 };
+            for b in short_lists.iter().filter(|l| l.len() <= 2).step_by(step) {
+                let (ra, rb) = (RV::List(a.clone()), RV::List(b.clone()));
+                let expected = match op {
+                    ".==" => Exp::Val(RV::Bool(ra.equals(&rb)).canon()),
+                    ".!=" => Exp::Val(RV::Bool(!ra.equals(&rb)).canon()),
+                    _ => match ra.compare(&rb) {
+                        None => Exp::Fail,
+                        Some(o) => Exp::Val(
+                            RV::Bool(match op {
+                                ".<" => o == Ordering::Less,
+                                ".<=" => o != Ordering::Greater,
+                                ".>" => o == Ordering::Greater,
+                                _ => o != Ordering::Less,
+                            })
+                            .canon(),
+                        ),
+                    },
+                };
+                cases.push(Case { src: format!("{} {} {}", ra.src(), op, rb.src()), kind: "dot-list-list", expected });
+            }
+            for s in &scal_pool {
+                cases.push(Case { src: format!("{} {} {}", RV::List(a.clone()).src(), op, s.src()), kind: "dot-list-scalar", expected: Exp::Bool });
+                cases.push(Case { src: format!("{} {} {}", s.src(), op, RV::List(a.clone()).src()), kind: "dot-scalar-list", expected: Exp::Bool });
+            }
+        }
+    }
+
+    let outcomes = par_map(&cases, |c| eval_src(&c.src));
+    for (c, out) in cases.iter().zip(outcomes.iter()) {
+        ctx.count(1);
+        ctx.nontrivial(&c.src);
+        let ok = match (&c.expected, out) {
+            (Exp::Val(v), Outcome::Ok(g)) => v == g,
+            (Exp::Fail, Outcome::EvalError(_)) => true,
+            (Exp::Bool, Outcome::Ok(g)) => g == "true" || g == "false",
+            (Exp::Bool, Outcome::EvalError(_)) => true,
+            (Exp::Any, _) => true,
+            _ => false,
+        };
+        ctx.outcome(&format!("{}-{}", c.kind, if out.is_ok() { "ok" } else { "fail" }));
+        if !ok {
+            ctx.violation(Violation {
+                kind: format!("broadcast-{}", c.kind),
+                class: c.src.split(' ').find(|t| OPS.iter().any(|(o, _)| o == t) || DOT_OPS.contains(t)).unwrap_or("?").to_string(),
+                input: c.src.clone(),
+                expected: match &c.expected {
+                    Exp::Val(v) => format!("ok:{}", v),
+                    Exp::Fail => "eval-error".into(),
+                    Exp::Bool => "a boolean or an error".into(),
+                    Exp::Any => "any".into(),
+                },
+                observed: out.cmp_key(),
+                case: json!({"src": c.src}),
+            });
+        }
+    }
+    for c in cases.iter().step_by(cases.len() / 8 + 1) {
+        ctx.sample(json!(c.src));
+    }
+    for k in ["list-scalar", "scalar-list", "list-list"] {
+        ctx.require_outcome(&format!("{}-ok", k), 100);
+        ctx.require_outcome(&format!("{}-fail", k), 100);
+    }
+    ctx.require_outcome("length-mismatch-fail", 100);
+    for (op, _) in OPS {
+        ctx.require_outcome(&format!("scalar-{}-ok", op), 1);
+    }
+    ctx.set("element_pool", json!(pool.iter().map(|v| v.src()).collect::<Vec<_>>()));
+    ctx.assume("and/or with a boolean left and a non-boolean right operand is not fixed by the statement; there the broadcast result is compared with the evaluator's own scalar result");
+    finish(
+        ctx,
+        "exploration",
+        "17 broadcasting operators x {scalar-scalar over pool^2; list-scalar and scalar-list for every list of length <= 2 over the pool and periodic extensions to 3..8; list-list for all equal-length pairs of those; every mismatched length pair 0..8} plus the six dot operators on lists; expected = independent scalar model applied element by element; distinct = distinct source expressions",
+        true,
+        None,
+    )
 }
